@@ -532,12 +532,7 @@ func (x *c13Sys) apply(i int) error {
 		m.getOrNew(o.a).nonce = o.v
 		m.f.touched[o.a] = true
 	case c13kSetCode:
-		if acc := m.f.accts[o.a]; acc != nil && acc.code != 0 {
-			// caller contract: the only caller that replaces existing code (EIP-7702 authorisation) reads it first
-			if got := s.GetCode(addr); !bytes.Equal(got, c13Codes[acc.code]) {
-				return fmt.Errorf("GetCode(%s) before SetCode = %x, model %x", c13AddrNames[o.a], got, c13Codes[acc.code])
-			}
-		}
+		// no read before the write: SetCode on code that has not been loaded yet is part of the space
 		s.SetCode(addr, c13Codes[o.v], tracing.CodeChangeUnspecified)
 		m.getOrNew(o.a).code = int(o.v)
 		m.f.touched[o.a] = true
@@ -929,6 +924,19 @@ func c13AcctOps(wide bool) []c13Op {
 	return ops
 }
 
+// c13AcctCoreOps is the two-account alphabet without explicit CreateAccount (implicit creation through the
+// setters takes the same createObject path) and without the second revert target; used for the deepest breadth run.
+func c13AcctCoreOps() []c13Op {
+	var ops []c13Op
+	for _, o := range c13AcctOps(false) {
+		if o.kind == c13kCreateAccount || (o.kind == c13kRevert && o.v == 1) {
+			continue
+		}
+		ops = append(ops, o)
+	}
+	return ops
+}
+
 func c13AuxOps() []c13Op {
 	return []c13Op{
 		{kind: c13kTransient, a: c13A, s: 0, v: 1},
@@ -983,6 +991,34 @@ func c13DeepOps(a int, wide bool) []c13Op {
 	)
 }
 
+// c13SlotOps: long multi-transaction histories of storage slots of one account. Every value of {0,1,2} can be
+// written to slot s0 in every transaction, and each transaction is closed either by Finalise only (EndTx, the
+// post-Byzantium flow) or by IntermediateRoot on the live object (EndTxRoot, the pre-Byzantium flow; flushes
+// pending storage into the storage trie and clears the uncommitted markers), freely mixed in one history, so
+// that change -> change -> restore-to-an-intermediate-value across three and more transactions with a root
+// anywhere in between is covered. wide adds the second slot, snapshots and the cold/warm reads.
+func c13SlotOps(a int, wide bool) []c13Op {
+	ops := []c13Op{
+		{kind: c13kSetState, a: a, s: 0, v: 0},
+		{kind: c13kSetState, a: a, s: 0, v: 1},
+		{kind: c13kSetState, a: a, s: 0, v: 2},
+	}
+	if wide {
+		ops = append(ops,
+			c13Op{kind: c13kSetState, a: a, s: 1, v: 0},
+			c13Op{kind: c13kSetState, a: a, s: 1, v: 1},
+			c13Op{kind: c13kGetState, a: a, s: 0},
+			c13Op{kind: c13kSnapshot},
+			c13Op{kind: c13kRevert, v: 0},
+			c13Op{kind: c13kReadAll},
+		)
+	}
+	return append(ops,
+		c13Op{kind: c13kEndTx},
+		c13Op{kind: c13kEndTxRoot},
+	)
+}
+
 func c13Names(ops []c13Op) []string {
 	out := make([]string, len(ops))
 	for i, o := range ops {
@@ -1034,8 +1070,7 @@ func TestVerif_C13(t *testing.T) {
 			"self-destructed accounts removed at end of tx (Amsterdam: kept as balance-only account when balance != 0); RIPEMD-160 touch survives reverts")
 		r.Assume("caller contract encoded in enabled(): CreateAccount only on non-existent accounts; CreateContract only on existing accounts with nonce 0, " +
 			"no code and no storage (EVM collision check, EIP-7610); Amsterdam: SelfDestruct only on contracts created in the same transaction (EIP-6780, " +
-			"enforced by the EVM); CreateContract only on accounts that already carry a mutation of the current transaction; existing non-empty code is read " +
-			"(GetCode) before SetCode replaces it, as the EIP-7702 authorisation path does; SubBalance only with sufficient balance; SubRefund only with sufficient refund; RevertToSnapshot only to live ids")
+			"enforced by the EVM); CreateContract only on accounts that already carry a mutation of the current transaction; SubBalance only with sufficient balance; SubRefund only with sufficient refund; RevertToSnapshot only to live ids")
 		r.Assume("the Cancun rule set is the berlin rule set restricted by the EIP-6780 caller contract (StateDB.Finalise does not read IsCancun), " +
 			"hence a sub-space of the explored berlin space")
 		r.Assume("model state root = StackTrie over keccak(address) -> RLP(nonce, balance, storageRoot, codeHash) with storageRoot = StackTrie over keccak(slot) -> RLP(value)")
@@ -1056,13 +1091,21 @@ func TestVerif_C13(t *testing.T) {
 			r.Bound("aux_depth", 4)
 			// refund, logs, transient storage, access list under snapshots
 			c13Explore(r, "aux", berlin, "contract", c13AuxOps(), 4)
+			// storage layers over many transactions, Finalise-only and live-IntermediateRoot transaction ends mixed
+			r.Bound("slot_depth", 10)
+			r.Bound("slot_wide_depth", 5)
+			c13Explore(r, "slot", pre158, "contract", c13SlotOps(c13A, false), 10)
+			c13Explore(r, "slot", berlin, "contract", c13SlotOps(c13A, false), 10)
+			c13Explore(r, "slot", amsterdam, "funded", c13SlotOps(c13A, false), 10)
+			c13Explore(r, "slotwide", berlin, "contract", c13SlotOps(c13A, true), 5)
 			// depth: one account, longer histories (journal counters, snapshot stacks, several transactions)
 			c13Explore(r, "deepB", berlin, "contract", c13DeepOps(c13B, false), 5)
 			c13Explore(r, "deepA", amsterdam, "funded", c13DeepOps(c13A, false), 5)
 			// breadth: two accounts + RIPEMD, all account operations
 			c13Explore(r, "acct", pre158, "contract", c13AcctOps(false), 3)
 			c13Explore(r, "acct", amsterdam, "funded", c13AcctOps(false), 3)
-			c13Explore(r, "acct", berlin, "contract", c13AcctOps(false), 4)
+			c13Explore(r, "acct", berlin, "contract", c13AcctOps(false), 3)
+			c13Explore(r, "acctcore", berlin, "contract", c13AcctCoreOps(), 4)
 			return
 		}
 		r.Bound("acct_depth", 5)
@@ -1071,6 +1114,13 @@ func TestVerif_C13(t *testing.T) {
 		r.Bound("deep_wide_depth", 5)
 		r.Bound("aux_depth", 5)
 		all := []*c13Rules{berlin, amsterdam, pre158}
+		r.Bound("slot_depth", 12)
+		r.Bound("slot_wide_depth", 8)
+		for _, ru := range all {
+			c13Explore(r, "slot", ru, "contract", c13SlotOps(c13A, false), 12)
+			c13Explore(r, "slot", ru, "funded", c13SlotOps(c13A, false), 12)
+			c13Explore(r, "slotwide", ru, "contract", c13SlotOps(c13A, true), 8)
+		}
 		// cheapest and deepest first, so that a run cut short by the budget has covered the long histories
 		for _, ru := range all {
 			c13Explore(r, "deepB", ru, "contract", c13DeepOps(c13B, false), 6)
